@@ -118,6 +118,10 @@ class FitResult(HoloPyObject):
             schema = copy_metadata(self.data, schema, do_coords=False)
             schema['x'] = x
             schema['y'] = y
+            z = np.atleast_1d(original_dims.get('z', 0))
+            if len(z) == 1:
+                # the plane the image was recorded in (not always z = 0)
+                schema['z'] = z
         else:
             schema = self.data
         return self.model.forward(pars, schema)
